@@ -252,7 +252,48 @@ func (ck *Check) verifyFunctions(filter func(c *Contract) bool) {
 			x.covers = true
 			x.coverProp = ck.Prop
 		}
-		if err := x.Run(); err != nil {
+		err := x.Run()
+		if len(x.localRenames()) > 0 && x.renameChoices > 1 {
+			// Locals named by the contract were renamed and several pairings of old
+			// and new names are possible: use the first pairing under which every
+			// obligation of the function discharges (obligations are proved, so a
+			// wrong pairing cannot make anything pass that should not).
+			for k := 0; k < x.renameChoices && k < 24; k++ {
+				xk := x
+				if k > 0 {
+					xk = NewExec(P, f, c)
+					xk.noMergeAll, xk.onlyProp, xk.covers, xk.coverProp, xk.renamePerm = x.noMergeAll, x.onlyProp, x.covers, x.coverProp, k
+					if xk.Run() != nil {
+						continue
+					}
+				} else if err != nil {
+					continue
+				}
+				xk.lemmaText = ck.lemmaTexts(xk, c.Lemmas)
+				var js []job
+				for _, vc := range xk.vcs {
+					if vc.Prop != "" && vc.Prop != ck.Prop && !alsoTag(ck.Prop, vc.Prop) {
+						continue
+					}
+					js = append(js, job{xk, vc})
+				}
+				saved := ck.results
+				ck.results = nil
+				ck.discharge(js)
+				all := true
+				for _, r := range ck.results {
+					if r.Status != "unsat" {
+						all = false
+					}
+				}
+				ck.results = saved
+				if all {
+					x, err = xk, nil
+					break
+				}
+			}
+		}
+		if err != nil {
 			ck.outOfSub = append(ck.outOfSub, fmt.Sprintf("%s: %v", n, err))
 			continue
 		}
@@ -384,6 +425,9 @@ func cmdLocals() {
 			}
 		}
 		add(c.Hints)
+		for _, h := range c.Hints {
+			used[strings.TrimPrefix(h.Label, "before:")] = true
+		}
 		add(c.OnAppend)
 		add(c.Invs)
 		if len(used) == 0 {
@@ -403,9 +447,13 @@ func cmdLocals() {
 			continue
 		}
 		found := map[string]string{}
+		var order []string
 		ast.Inspect(f.Syntax(), func(nd ast.Node) bool {
 			if id, ok := nd.(*ast.Ident); ok {
-				if obj, ok := info.Defs[id].(*types.Var); ok && obj != nil && !obj.IsField() && used[id.Name] && !params[id.Name] {
+				if obj, ok := info.Defs[id].(*types.Var); ok && obj != nil && !obj.IsField() && id.Name != "_" && !params[id.Name] {
+					if _, dup := found[id.Name]; !dup {
+						order = append(order, id.Name) // ast.Inspect visits in source order
+					}
 					found[id.Name] = typeStr(obj.Type())
 				}
 			}
@@ -415,7 +463,7 @@ func cmdLocals() {
 			continue
 		}
 		fmt.Printf("%s %s\n", c.File, n)
-		for _, k := range sortedKeys(found) {
+		for _, k := range order {
 			fmt.Printf("//@   local %s %s\n", k, found[k])
 		}
 	}
